@@ -103,3 +103,14 @@ PROPS['C11'] = dict(
   text='Decides that no assert() in the matrix unit can fire from the public API (each is discharged by the sign-extended 32-bit range of every caller\'s vector, or is a confirmed invariant keyed by its exact expression), that point/point_3d compare all three narrowed components, that multiply\'s narrowing store is dominated by both range tests and the float conversion by both bounds, '
        'that no library caller ignores a matrix function\'s status, that 64-bit accumulations widen before multiplying, and that the 16.16 roundings agree on +0x8000. Exact rounding of the 128-bit division and transform_bounds (F6) are value-level and not decided.',
   note='Trusted: clang-14 IR = built program. F4 (assert(div < 2^48) reachable from pixman_transform_point) was repaired in /repo; the relaxed assertion is in the confirmed table with its reason. F6 is recorded in DESIGN.md as outside static reach.')
+PROPS['C13'] = dict(
+  technique='static analysis: protocol-constant agreement between allocation, bias and free (T-PAIR), bounded-index classification of every stop access by linear form, constructor status use (T-ERR), sentinel contents against the repeat semantics',
+  text='Recovers from the IR the number of spare stop elements allocated, the bias applied to the stored pointer and the bias undone before free, and decides K_f == K_b >= 1, K_a >= K_b+1; classifies every index into gradient.stops / walker stops across the library as a constant, n_stops+c or a stop-count-bounded loop counter+c and requires it inside [-K_b, n_stops+K_a-K_b-1]; '
+       'requires every gradient constructor to test the initialiser and the three scanline functions to test pixman_transform_point_3d; compares, for each of the four repeat modes, position and colour source of both sentinel stops with the Render repeat semantics. Colours, root selection and t computation are value-level and not decided.',
+  note='Trusted: clang-14 IR = built program; repeat semantics transcribed from Render (DESIGN Appendix B.6).')
+PROPS['C18'] = dict(
+  technique='static analysis: symbolic polynomial comparison of the block layout at writer, acceptance test and readers (sympy normal forms), affine write accounting over LoopInfo/ScalarEvolution facts, enumerator-ordered table check',
+  text='Turns the length/offset expressions of the block writer, of pixman_image_set_filter\'s acceptance test and of the three readers into polynomials over the header values (w, h, bx, by) and requires them to agree: total 4 + w*2^bx + h*2^by, x table at 4, y table at 4 + w*2^bx, phase rows of w resp. h entries, header slots fixed(w,h,bx,by); '
+       'shows from loop induction facts that the per-axis writer advances by exactly `width` per phase (two unit-stride passes with trip count width, one rewind by -width) for n_phases phases and adds the 1.0 residual to a tap of the phase; filters[] is indexed consistently with pixman_kernel_t. '
+       'That the coefficients sum to exactly 65536 is a floating-point fact and not decided (only the mechanism is).',
+  note='Trusted: clang-14 IR, LLVM ScalarEvolution, sympy simplification; block layout per pixman.h (DESIGN Appendix B.3).')
